@@ -1,6 +1,7 @@
 import CookModel.Lemmas.ClosingStream
 import CookModel.Lemmas.CloseC03
 import CookModel.Lemmas.CollectorTrans
+import CookModel.Lemmas.CoverInput
 /-
   C05 through the analysis (partial): the text of every `Text` event reaches the returned recipe — as a
   `Text` item of a step, or inside the text of a text block — unless it was analysed in define mode
@@ -443,5 +444,58 @@ theorem rt_components_mode_warns (env : Env) (t : Text) (items : List Item) (s :
   simp +instances only [A_bind, A_get, hb]
   unfold inStepTextStep
   simp +instances only [A_bind, A_get, A_ite, A_modify, A_pure, awarn, hm, ha, beq_self_eq_true, if_true]
+
+/-! ### from byte positions to characters of the recipe -/
+
+/-- a character of the input whose bytes lie inside a fragment that is the source slice at its offset is a
+    character of the fragment's text -/
+theorem rt_char_in_frag {input a z : List Char} {ch : Char} (hin : input = a ++ ch :: z) {f : Frag}
+    (hs : SliceAt 0 input f.offset f.text) (h1 : f.offset ≤ utf8Len a)
+    (h2 : utf8Len a + ch.utf8Size ≤ f.stop) : ch ∈ f.text := by
+  obtain ⟨pre, suf, hw, hp⟩ := hs
+  have hpos := utf8Size_pos ch
+  have e1 : a ++ ch :: z = pre ++ (f.text ++ suf) := by rw [← hin, hw]; simp
+  rcases cov_char_in_append e1 with ⟨z', e2⟩ | ⟨a', e2, e3⟩
+  · exfalso
+    rw [e2, utf8Len_append, utf8Len_cons] at hp
+    omega
+  · rcases cov_char_in_append e3.symm with ⟨z', e4⟩ | ⟨a'', e4, e5⟩
+    · rw [e4]; simp
+    · exfalso
+      unfold Frag.stop at h2
+      rw [e2, e4, utf8Len_append, utf8Len_append] at h2
+      omega
+
+/-- … hence, when the fragment is not a soft line break, of the text (`Text::text`) -/
+theorem rt_char_in_text {t : Text} {f : Frag} (hf : f ∈ t.frags) (hsoft : f.soft = false) {ch : Char}
+    (hc : ch ∈ f.text) : ch ∈ t.text := by
+  unfold Text.text
+  exact List.mem_flatMap.2 ⟨f, hf, by simp [hsoft, hc]⟩
+
+/-- the character occurs in a `Text` item of a step or in a text block of the recipe -/
+def RecipeHasChar (c : Col α) (ch : Char) : Prop :=
+  ∃ sec ∈ c.sections, ∃ ct ∈ sec.content,
+    (∃ st τ, ct = .step st ∧ Item.text τ ∈ st.items ∧ ch ∈ τ) ∨ (∃ buf, ct = .text buf ∧ ch ∈ buf)
+
+theorem rt_hasChar_of_secsHave {c : Col α} {τ : Str} {ch : Char} (h : SecsHave τ c.sections) (hc : ch ∈ τ) :
+    RecipeHasChar c ch := by
+  obtain ⟨sec, hsec, ct, hct, hh⟩ := h
+  refine ⟨sec, hsec, ct, hct, ?_⟩
+  cases ct with
+  | step st => exact Or.inl ⟨st, τ, rfl, hh, hc⟩
+  | text buf =>
+    obtain ⟨x, y, hxy⟩ := hh
+    exact Or.inr ⟨buf, rfl, by rw [← hxy]; simp [hc]⟩
+
+/-- the text of a `Text` event of the pull parser is made of source slices -/
+theorem rt_pullEvents_text_slices (cs : CharSpec) (ext : Ext) (input : List Char) (t : Text)
+    (ht : Ev.text t ∈ (pullEvents (α := α) cs ext input).1.toList) :
+    ∀ f ∈ t.frags, SliceAt 0 input f.offset f.text := by
+  obtain ⟨b, h⟩ := pullEvents_topInv (α := α) cs ext input (frontMatterOffsetsOK cs input)
+  have hok := h.ok _ ht
+  exact hok.2
+
+/-- a small environment for the examples: the toy character table, no extension, no converter -/
+def rtToyEnv : Env := ⟨toyCharSpec, ⟨0⟩, fun _ => none, fun _ _ => .ok, fun c => [c], 0⟩
 
 end Cook
